@@ -22,7 +22,15 @@ Record site_obs : Type := SITE { site_defined : Q; site_found : Q }.
 (* one solid solution: per component amount (S_S) and activity IAP/K (SR) *)
 Record ss_obs : Type := SS { ss_ideal : bool; ss_comps : list (Q * Q) }.
 
-Record hcase : Type := CASE { c_pp : list pp_obs; c_exch : list site_obs; c_surf : list site_obs; c_ss : list ss_obs }.
+(* one PRESENT solid solution as stored after the step (SAVE + DUMP): per component amount, SI (BASIC), and the
+   stored mole fraction, log10 mole fraction, log10 activity coefficient; Guggenheim parameters a0, a1 actually used *)
+Record ssx_comp : Type := SSXC { xc_moles : Q; xc_si : Q; xc_frac : Q; xc_l10frac : Q; xc_l10lam : Q }.
+(* sx_gap: the composition lies in the miscibility gap (the stored fractions are then those of the gap end member
+   mixture, not n_i / n) *)
+Record ssx_obs : Type := SSX { sx_ideal : bool; sx_gap : bool; sx_a0 : Q; sx_a1 : Q; sx_comps : list ssx_comp }.
+
+Record hcase : Type := CASE { c_pp : list pp_obs; c_exch : list site_obs; c_surf : list site_obs; c_ss : list ss_obs;
+                              c_ssx : list ssx_obs }.
 
 (* ------------------------------------------------------------------ the property (over R) *)
 Section Valid.
@@ -53,6 +61,33 @@ Section Valid.
     (ideal = true ->
        (0 < tot -> Forall (fun c => Rabs (snd c * tot - fst c) <= tolAct * fst c) comps) /\
        (~ 0 < tot -> sumR (map snd comps) <= 1 + tolAct)).
+
+  Definition tolFrac : R := 1 / 1000000000.     (* stored numbers carry 14 significant digits *)
+
+  (* Guggenheim (Redlich-Kister) activity coefficients of a binary solution, x1 x2 the mole fractions *)
+  Definition gugg1 (a0 a1 x2 : R) : R := x2 * x2 * (a0 - a1 * (3 - 4 * x2)).
+  Definition gugg2 (a0 a1 x1 x2 : R) : R := x1 * x1 * (a0 + a1 * (4 * x2 - 1)).
+
+  (* component tuple: (moles, si, frac, log10 frac, log10 lambda) *)
+  Definition T5 : Type := (R * R * R * R * R)%type.
+  Definition mol (c : T5) : R := fst (fst (fst (fst c))).
+  Definition si (c : T5) : R := snd (fst (fst (fst c))).
+  Definition fr (c : T5) : R := snd (fst (fst c)).
+  Definition lf (c : T5) : R := snd (fst c).
+  Definition ll (c : T5) : R := snd c.
+  Definition ssx_validR (ideal gap : bool) (a0 a1 : R) (comps : list T5) : Prop :=
+    let tot := sumR (map mol comps) in
+    Forall (fun c => 0 <= fr c) comps /\
+    Rabs (sumR (map fr comps) - 1) <= tolFrac /\
+    (gap = false -> Forall (fun c => Rabs (fr c * tot - mol c) <= tolFrac * tot) comps) /\
+    Forall (fun c => Rabs (si c - (lf c + ll c)) <= tolSI) comps /\
+    (ideal = true -> Forall (fun c => ll c = 0) comps) /\
+    (ideal = false ->
+       match comps with
+       | [c0; c1] => Rabs (ll c0 * ln 10 - gugg1 a0 a1 (fr c1)) <= tolFrac /\
+                     Rabs (ll c1 * ln 10 - gugg2 a0 a1 (fr c0) (fr c1)) <= tolFrac
+       | _ => True
+       end).
 End Valid.
 
 Definition pp_valid (p : pp_obs) : Prop :=
@@ -61,8 +96,14 @@ Definition site_valid (s : site_obs) : Prop := site_validR (Q2R (site_defined s)
 Definition ss_valid (s : ss_obs) : Prop :=
   ss_validR (ss_ideal s) (map (fun c => (Q2R (fst c), Q2R (snd c))) (ss_comps s)).
 
+Definition ssx_tuple (c : ssx_comp) : T5 :=
+  (Q2R (xc_moles c), Q2R (xc_si c), Q2R (xc_frac c), Q2R (xc_l10frac c), Q2R (xc_l10lam c)).
+Definition ssx_valid (s : ssx_obs) : Prop :=
+  ssx_validR (sx_ideal s) (sx_gap s) (Q2R (sx_a0 s)) (Q2R (sx_a1 s)) (map ssx_tuple (sx_comps s)).
+
 Definition hetero_valid (c : hcase) : Prop :=
-  Forall pp_valid (c_pp c) /\ Forall site_valid (c_exch c) /\ Forall site_valid (c_surf c) /\ Forall ss_valid (c_ss c).
+  Forall pp_valid (c_pp c) /\ Forall site_valid (c_exch c) /\ Forall site_valid (c_surf c) /\ Forall ss_valid (c_ss c)
+  /\ Forall ssx_valid (c_ssx c).
 
 (* ------------------------------------------------------------------ the executable checker (over Q) *)
 Open Scope Q_scope.
@@ -99,5 +140,30 @@ Definition ss_ok (s : ss_obs) : bool :=
      else Qle_bool (sumQ (map snd (ss_comps s))) (1 + qtolAct)
    else true).
 
+Definition qtolFrac : Q := 1 # 1000000000.
+(* rational bounds of ln 10 = 2.302585092994045684... *)
+Definition ln10_lo : Q := 2302585092994045 # 1000000000000000.
+Definition ln10_hi : Q := 2302585092994046 # 1000000000000000.
+
+Definition Qabs_le (x t : Q) : bool := Qle_bool x t && Qle_bool (- t) x.
+
+Definition ssx_ok (s : ssx_obs) : bool :=
+  let cs := sx_comps s in
+  let tot := sumQ (map xc_moles cs) in
+  forallb (fun c => Qle_bool 0 (xc_frac c)) cs &&
+  Qabs_le (sumQ (map xc_frac cs) - 1) qtolFrac &&
+  (if sx_gap s then true else forallb (fun c => Qabs_le (xc_frac c * tot - xc_moles c) (qtolFrac * tot)) cs) &&
+  forallb (fun c => Qabs_le (xc_si c - (xc_l10frac c + xc_l10lam c)) qtolSI) cs &&
+  (if sx_ideal s then forallb (fun c => Qeq_bool (xc_l10lam c) 0) cs
+   else match cs with
+        | [c0; c1] =>
+          let g1 := xc_frac c1 * xc_frac c1 * (sx_a0 s - sx_a1 s * (3 - 4 * xc_frac c1)) in
+          let g2 := xc_frac c0 * xc_frac c0 * (sx_a0 s + sx_a1 s * (4 * xc_frac c1 - 1)) in
+          Qabs_le (xc_l10lam c0 * ln10_lo - g1) qtolFrac && Qabs_le (xc_l10lam c0 * ln10_hi - g1) qtolFrac &&
+          Qabs_le (xc_l10lam c1 * ln10_lo - g2) qtolFrac && Qabs_le (xc_l10lam c1 * ln10_hi - g2) qtolFrac
+        | _ => true
+        end).
+
 Definition case_ok (c : hcase) : bool :=
-  forallb pp_ok (c_pp c) && forallb site_ok (c_exch c) && forallb site_ok (c_surf c) && forallb ss_ok (c_ss c).
+  forallb pp_ok (c_pp c) && forallb site_ok (c_exch c) && forallb site_ok (c_surf c) && forallb ss_ok (c_ss c)
+  && forallb ssx_ok (c_ssx c).
